@@ -13,7 +13,7 @@ def leg(test, module="rt", quick=(1000, 1), thorough=(10000, 16), race=False, ti
                 timeout_s=timeout_s, env=env or {}, fixed=fixed)
 
 HOOK_COMMITS = ["dd392ad"]
-FIX_COMMITS = ["e449346", "ba22cb7", "3039ef0", "273eefb", "cca5970", "2577b44", "d6810d1", "e1987c3", "b1932c7", "c49aa17", "d9e8025", "42ec2de", "5135650", "011d02a", "09939f4", "4fe35d1", "cb91a35", "8687ea4", "deec4d9", "bd99941", "b8998ee", "e4ab411", "6d4587f", "a4a4c01", "5b894d6", "c7c1fc7", "534bf60", "9872ec0", "02ec8c1", "d2443a0", "29e0a7c", "2122292", "144247a", "e0d0217", "bbf0209", "dbafbe9"]
+FIX_COMMITS = ["e449346", "ba22cb7", "3039ef0", "273eefb", "cca5970", "2577b44", "d6810d1", "e1987c3", "b1932c7", "c49aa17", "d9e8025", "42ec2de", "5135650", "011d02a", "09939f4", "4fe35d1", "cb91a35", "8687ea4", "deec4d9", "bd99941", "b8998ee", "e4ab411", "6d4587f", "a4a4c01", "5b894d6", "c7c1fc7", "534bf60", "9872ec0", "02ec8c1", "d2443a0", "29e0a7c", "2122292", "144247a", "e0d0217", "bbf0209", "dbafbe9", "638864b", "a90421e"]
 
 ALL_PROPS = ["C%02d" % i for i in range(1, 21)]
 
